@@ -11,15 +11,15 @@ if [ -n "$(git -C /repo status --porcelain)" ]; then echo "repo not clean"; exit
 git -C /repo apply $D/patch.diff || { echo "$ID: patch does not apply"; exit 3; }
 for p in $PIDS; do
   rm -f replays/$p-*.json
-  ./check $p ${SEED_TIER:+--tier $SEED_TIER} > /tmp/seedrun_$ID_$p.log 2>&1; rc=$?
-  grep -E "^(VIOLATION|KNOWN-FINDING|C[0-9]+ (quick|thorough))" /tmp/seedrun_$ID_$p.log | head -12 > $D/check_$p.log
-  nv=$(grep -c "^VIOLATION" /tmp/seedrun_$ID_$p.log)
-  nf=$(grep "^VIOLATION" /tmp/seedrun_$ID_$p.log | grep -c "no-failing-input-found")
-  first=$(grep "^VIOLATION" /tmp/seedrun_$ID_$p.log | head -1 | sed -E 's/.*replay=([^ ]+).*/\1/')
+  ./check $p ${SEED_TIER:+--tier $SEED_TIER} > /tmp/seedrun_${ID}_${p}.log 2>&1; rc=$?
+  grep -E "^(VIOLATION|KNOWN-FINDING|C[0-9]+ (quick|thorough))" /tmp/seedrun_${ID}_${p}.log | head -12 > $D/check_$p.log
+  nv=$(grep -c "^VIOLATION" /tmp/seedrun_${ID}_${p}.log)
+  nf=$(grep "^VIOLATION" /tmp/seedrun_${ID}_${p}.log | grep -c "no-failing-input-found")
+  first=$(grep "^VIOLATION" /tmp/seedrun_${ID}_${p}.log | head -1 | sed -E 's/.*replay=([^ ]+).*/\1/')
   [ -n "$first" ] && [ -f "$first" ] && cp "$first" $D/replay_$p.json
   echo "$ID check=$p rc=$rc violations=$nv without_input=$nf"
   echo "rc=$rc violations=$nv without_input=$nf" >> $D/check_$p.log
-  rm -f /tmp/seedrun_$ID_$p.log
+  rm -f /tmp/seedrun_${ID}_${p}.log
 done
 git -C /repo checkout -- . ; git -C /repo clean -fdq
 git -C /verif checkout -- evidence
